@@ -48,6 +48,55 @@ Proof.
     + apply IHps.
 Qed.
 
+Lemma reset_from_length : forall ps a s, length (reset_from a s ps) = length ps.
+Proof. induction ps; cbn; intros; auto. Qed.
+
+(* row k of the table after the reset at election (fix_ack_term): the own row is kept, every other row is cleared *)
+Lemma reset_from_nth : forall ps a s k,
+  nth k (reset_from a s ps) peer0 =
+  if a + N.of_nat k =? s then nth k ps peer0 else p_set_all 0 0 0 (nth k ps peer0).
+Proof.
+  induction ps as [|p ps IH]; intros a s k; cbn [reset_from].
+  - destruct k; cbn [nth]; destruct (_ =? _); reflexivity.
+  - destruct k; cbn [nth].
+    + replace (a + N.of_nat 0) with a by lia. reflexivity.
+    + rewrite IH. replace (a + 1 + N.of_nat k) with (a + N.of_nat (S k)) by lia. reflexivity.
+Qed.
+
+Lemma node_at_reset_rows : forall nd j,
+  node_at (reset_rows nd) j = if j =? n_index nd then node_at nd j else p_set_all 0 0 0 (node_at nd j).
+Proof.
+  intros nd j. unfold node_at, reset_rows. cbn [n_peers set_peers]. rewrite reset_from_nth.
+  replace (0 + N.of_nat (N.to_nat j)) with j by lia. reflexivity.
+Qed.
+
+Lemma local_reset_rows : forall nd, local (reset_rows nd) = local nd.
+Proof. intros nd. unfold local. change (n_index (reset_rows nd)) with (n_index nd). rewrite node_at_reset_rows, N.eqb_refl. reflexivity. Qed.
+
+Lemma others_reset_rows : forall nd, others (reset_rows nd) = others nd.
+Proof. intros nd. unfold others, indices, reset_rows. cbn [n_peers set_peers n_index]. rewrite reset_from_length. reflexivity. Qed.
+
+(* the heartbeats sent at election carry the own row, which the reset leaves alone *)
+Lemma heartbeat_reset_rows : forall nd, heartbeat_no_timer (reset_rows nd) = heartbeat_no_timer nd.
+Proof.
+  intros nd. unfold heartbeat_no_timer. rewrite others_reset_rows. apply map_ext. intros j.
+  unfold mk_req. rewrite local_reset_rows. reflexivity.
+Qed.
+
+(* `vote_received` with the effect of the acknowledgement repair isolated *)
+Lemma vote_received_eq : forall rv nd r,
+  vote_received rv nd r =
+  if n_size nd / 2 <? votes (upd_peer nd (q_to r) (p_set_voted true)) then
+    (if fix_ack_term rv then reset_rows (set_term (set_state (upd_peer nd (q_to r) (p_set_voted true)) Leader) (q_term r))
+     else set_term (set_state (upd_peer nd (q_to r) (p_set_voted true)) Leader) (q_term r),
+     heartbeat_no_timer (set_term (set_state (upd_peer nd (q_to r) (p_set_voted true)) Leader) (q_term r)))
+  else (upd_peer nd (q_to r) (p_set_voted true), []).
+Proof.
+  intros rv nd r. unfold vote_received.
+  change (n_size (upd_peer nd (q_to r) (p_set_voted true))) with (n_size nd).
+  destruct (_ <? _); [|reflexivity]. destruct (fix_ack_term rv); rewrite ?heartbeat_reset_rows; reflexivity.
+Qed.
+
 (* ------------------------------------------------------------------ node invariant and the step relation *)
 
 Record ninv (nd : node) : Prop := {
@@ -131,6 +180,12 @@ Proof.
     destruct (clear_from_nth (n_peers nd) 0 (n_index nd) (N.to_nat (n_index nd))) as [-> | ->]; auto.
   - unfold local, node_at; cbn.
     destruct (clear_from_nth (n_peers nd) 0 (n_index nd) (N.to_nat (n_index nd))) as [-> | ->]; auto.
+Qed.
+
+Lemma good_reset_rows : forall nd, ninv nd -> good nd (reset_rows nd).
+Proof.
+  intros nd I. apply good_same; auto; try (rewrite local_reset_rows; reflexivity).
+  cbn. apply reset_from_length.
 Qed.
 
 (* ------------------------------------------------------------------ storage steps *)
@@ -387,13 +442,18 @@ Proof.
   - exact G1.
 Qed.
 
-Lemma good_vote_received : forall nd r, ninv nd -> good nd (fst (vote_received nd r)).
+Lemma good_vote_received : forall rv nd r, ninv nd -> good nd (fst (vote_received rv nd r)).
 Proof.
-  intros nd r I. unfold vote_received.
+  intros rv nd r I. unfold vote_received.
   assert (G1 : good nd (upd_peer nd (q_to r) (p_set_voted true))) by (apply good_upd_peer; auto using voted_keeps).
   destruct (_ <? _); cbn [fst]; [|exact G1].
   eapply good_trans; [exact G1|].
-  eapply good_trans; [apply good_set_state; apply G1|]. apply good_set_term. apply good_set_state. apply G1.
+  eapply good_trans; [apply good_set_state; apply G1|].
+  assert (G3 : good (set_state (upd_peer nd (q_to r) (p_set_voted true)) Leader)
+                    (set_term (set_state (upd_peer nd (q_to r) (p_set_voted true)) Leader) (q_term r)))
+    by (apply good_set_term; apply good_set_state; apply G1).
+  destruct (fix_ack_term rv); [|exact G3].
+  eapply good_trans; [exact G3|]. apply good_reset_rows. apply G3.
 Qed.
 
 Lemma good_commit : forall nd r, ninv nd -> q_to r <> n_index nd -> good nd (fst (commit nd r)).
@@ -414,7 +474,7 @@ Proof.
     first [ apply good_refl; exact I
           | apply good_pre_vote_received; exact I
           | destruct (vote_counts rv nd r); cbn [fst]; [apply good_vote_received; exact I | apply good_refl; exact I]
-          | apply good_commit; [exact I|exact Hne]
+          | destruct (ack_counts rv nd r); cbn [fst]; [apply good_commit; [exact I|exact Hne] | apply good_refl; exact I]
           | match goal with |- context [if ?b then _ else _] => destruct b end; cbn [fst];
             [ eapply good_trans; [apply good_set_term; exact I|];
               eapply good_trans; [apply good_set_state; apply good_set_term; exact I|];
@@ -483,11 +543,14 @@ Proof.
   destruct (n_state nd); destruct (q_kind r); destruct (s_result s); cbn [snd];
     try apply reqs_ok_nil;
     try (destruct (vote_counts rv nd r); cbn [snd]; [|apply reqs_ok_nil]);
+    try (destruct (ack_counts rv nd r); cbn [snd]; [|apply reqs_ok_nil]);
     try (match goal with |- context [if ?b then _ else _] => destruct b end; cbn [snd]; apply reqs_ok_nil).
   all: try (unfold pre_vote_received; destruct (_ <? _); cbn [snd]; [|apply reqs_ok_nil];
             apply (reqs_election (upd_peer nd (q_to r) (p_set_voted true)))).
   all: try (unfold vote_received; destruct (_ <? _); cbn [snd]; [|apply reqs_ok_nil];
-            apply (reqs_hb_no_timer (set_term (set_state (upd_peer nd (q_to r) (p_set_voted true)) Leader) (q_term r)))).
+            destruct (fix_ack_term rv);
+            [ apply (reqs_hb_no_timer (reset_rows (set_term (set_state (upd_peer nd (q_to r) (p_set_voted true)) Leader) (q_term r))))
+            | apply (reqs_hb_no_timer (set_term (set_state (upd_peer nd (q_to r) (p_set_voted true)) Leader) (q_term r)))]).
   all: try (unfold commit; destruct (_ && _); cbn [snd]; [|apply reqs_ok_nil];
             apply (reqs_hb_no_timer (commit_storage (upd_peer nd (q_to r) (p_set_all (q_li r) (q_lt r) (q_lc r))) (q_li r)))).
   all: try (unfold reconcile; cbn [snd]; intros q [<-|[]]; cbn; split; auto).
@@ -658,4 +721,4 @@ Qed.
 Lemma C28ab_example : forall rv,
   let c := run rv w28_ack_diverged_n w28_ack_diverged in
   commit_of c 1 = 2 /\ log_at (logs_of c 1) 2 = Some (mkEntry 2 2 22).
-Proof. intros [[|] [|]]; vm_compute; auto. Qed.
+Proof. intros [[|] [|] [|]]; vm_compute; auto. Qed.
